@@ -73,14 +73,14 @@ chk('C13', 'model_checking',
     'symbolic execution of LLVM IR (lsx, z3) over an abstract sqlite3/file-system model', 'DESIGN.md §3 C13')
 chk('C14', 'model_checking',
     'Symbolic fault injection: every public mutating operation of the schema-2.x implementation (41 operations: 27 track setters incl. update, 9 crate operations, 5 database operations) '
-    'is executed from the public wrapper down through sqlite_transaction and sqlite_modern_cpp to an abstract sqlite3 model with transaction state; exactly one write statement or COMMIT fails, '
+    'is executed from the public wrapper down through sqlite_transaction and sqlite_modern_cpp to an abstract sqlite3 model with transaction state; exactly one statement fails - a write, a COMMIT or (separate runs) a SELECT / PRAGMA query on its first step - '
     'at a position the executor forks over on every path (all k literally). Oracle at the end of the call: the failure was reported by an exception, no transaction is open, no write took effect.',
     'Trusted: clang lowering, lsx, lsx/models_sqlite.py (statement classification from the real SQL text; SQLite statement-level atomicity assumed; busy COMMIT leaves the transaction open), z3. '
     'Schema 1.x operations: see DESIGN.md (covered only if listed in the evidence). Four listed known findings (2.x two-statement setters). Counterexamples are not replayed against a real SQLite.',
     'symbolic execution of LLVM IR (lsx, z3) with solver-chosen fault position over an abstract sqlite3 model', 'DESIGN.md §3 C14')
 chk('C16', 'model_checking',
     'Symbolic execution of every public observing operation of both generations (2.x: 50 operations of track, crate and database; 1.x: the same op table over engine_*_impl) over an abstract sqlite3 model whose SELECTs answer arbitrary rows '
-    '(exactly one row, and 0..1 rows): on no path may any statement other than a read be prepared. Statement text is taken from the concrete bytes passed to sqlite3_prepare_v2, so dynamically built SQL is covered.',
+    '(exactly one row, and 0..1 rows; a third run answers every text column with arbitrary non-NUL bytes, so that two stored text columns need not agree): on no path may any statement other than a read be prepared. Statement text is taken from the concrete bytes passed to sqlite3_prepare_v2, so dynamically built SQL is covered.',
     'Also: loading itself (load_database) and database_exists() over the abstract sqlite3 + stat() model of C13 for every stored version triple and file-system state, to the point where the connection is closed again, and verify() over the catalog model of C17: nothing but reads and ATTACH / DETACH may be prepared or passed to sqlite3_exec; a PRAGMA counts as a read only if it is one of the documented pure queries. Trusted: clang lowering, lsx, lsx/models_sqlite.py, checks/catalog.py, z3. Effects inside SQLite of a read statement are outside.',
     'symbolic execution of LLVM IR (lsx, z3) over an abstract sqlite3 model', 'DESIGN.md §3 C16')
 chk('C18', 'model_checking',
@@ -115,9 +115,11 @@ chk('C10', 'model_checking',
     'create track / crate / sub-crate, retitle / rate a track, rename a crate) runs over the relational sqlite3 model; the whole observation is made through the handles the history holds, every handle and the database '
     'object are released (sqlite3_close rolls an open transaction back, committed rows stay), the library objects are built again over the store and the observation is repeated through fresh handles obtained by id. '
     'The solver decides on every path that both observations are equal: nothing observable lives only in a handle or implementation object, no write is left in an open transaction. Sampled passing paths and every '
-    'counterexample are replayed natively on a library created ON DISK, closed and loaded again with load_database (which must report the created schema version).',
-    'NOT covered (stated): durability of a COMMIT in SQLite\'s pager / journal, which attached file of 1.x a table lives in, the loader and create_or_load_database as symbolic code (the loader runs only in the native '
-    'replays of sampled paths; its decision table is C13), closing at inner prefixes, fields beyond title / rating. Trusted: as C07/C08 (lsx/models_rel.py validated against the real SQLite), one store per run stands for the files.',
+    'counterexample are replayed natively on a library created ON DISK, closed and loaded again with load_database (which must report the created schema version). '
+    'Peek runs query every live handle after every operation (caches filled at every point of the history). Create-or-load half: the real create_or_load_database / load_database over the abstract sqlite3 + stat() model of C13 '
+    '(every file-system state, every int32 version triple, symbolic requested schema) with create_database recorded: a library is created exactly when none exists, an unreadable / unsupported one is never created over, a loaded one reports its stored version.',
+    'NOT covered (stated): durability of a COMMIT in SQLite\'s pager / journal, which attached file of 1.x a table lives in, what create_database writes (C11 / C17), create-or-load on a directory holding both layouts, the loader after detection (runs only in the native '
+    'replays of sampled paths), closing at inner prefixes, fields beyond title / rating. Trusted: as C07/C08 (lsx/models_rel.py validated against the real SQLite), one store per run stands for the files.',
     'bounded symbolic execution of LLVM IR (lsx, z3) over a relational sqlite3 model with close / reopen + native replay on a real on-disk library', 'DESIGN.md §3 C10')
 chk('C07', 'model_checking',
     'Both generations (2.x: database_impl / crate_impl / playlist_table; 1.x: engine_database_impl / engine_crate_impl incl. the three redundant encodings and, from 1.9.1, the List views with INSTEAD OF triggers): symbolic execution '
